@@ -49,6 +49,13 @@ def gen_query(rnd, tname):
     if rnd.random() < 0.1 and sel != [["star"]]:
         # a qualified call: out of model, compared by the metamorphic runs (every inner array resolves its own slots)
         sel = sel + [item(["func", "async", "vf_id", [col("a")]], "av")]
+    if rnd.random() < 0.12 and sel != [["star"]]:
+        # a column qualified by the bare name of the (un-aliased) table: whatever the engine makes of the qualifier, it makes the
+        # same of it in a flat source and in every inner array of a nested one (model + the metamorphic runs)
+        sel = sel + [item(col(tname, "a"), "qa")]
+        if rnd.random() < 0.5:
+            wh = rnd.choice([["cmp", "ge", col(tname, "a"), num(2)], ["is", "null", col(tname, "a")],
+                             ["or", ["cmp", "ge", col(tname, "a"), num(2)], ["cmp", "eq", col("s"), ["str", "x"]]]])
     return select(sel, table(tname), wh=wh, distinct=rnd.random() < 0.1)
 
 
